@@ -451,6 +451,9 @@ def run_property(pid, cfg, tier, seed, bless=False, t0=None):
             assumptions.append(f"[{u}] {h}")
     if unstable:
         assumptions.append("UNSTABLE under seed/rlimit variation: " + "; ".join(unstable))
+    for k in open_findings:
+        if k.get("static"):
+            assumptions.append("OPEN KNOWN FINDING (outside the contracts): " + k.get("what", "") + " — " + k.get("demo", ""))
     ev = {
         "property_id": pid,
         "tier": tier,
@@ -490,6 +493,10 @@ def run_property(pid, cfg, tier, seed, bless=False, t0=None):
     json.dump(ev, open(os.path.join(evdir, f"{pid}.json"), "w"), indent=1)
     for f, k in known_hits:
         print(f"KNOWN-FINDING: property={pid} {k.get('what', f['obligation'])}")
+    # open findings that no obligation can detect (found by reading, reproduced on the real binary): listed on every run
+    for k in open_findings:
+        if k.get("static"):
+            print(f"KNOWN-FINDING: property={pid} {k.get('what', '')}")
     if violations:
         rpdir = os.environ.get("VERIF_REPLAY_DIR", os.path.join(VERIF, "replays"))
         os.makedirs(rpdir, exist_ok=True)
